@@ -5,12 +5,14 @@ HERE = os.path.dirname(os.path.abspath(__file__))
 sys.path.insert(0, HERE); sys.path.insert(0, "/repo")
 logging.disable(logging.WARNING)
 from runner import Ctx
-props = sys.argv[1:] or sorted(f[:-3] for f in os.listdir(os.path.join(HERE, "corr")) if f.startswith("C") and f.endswith(".py"))
+SEEDS = [int(x) for x in os.environ.get("SELFTEST_SEEDS", "0").split(",")]
+props = sys.argv[1:] or sorted(f[:-3] for f in os.listdir(os.path.join(HERE, "corr")) if f.startswith("C") and f.endswith(".py") and len(f) == 6)
 bad = 0
 for p in props:
     m = importlib.import_module(f"corr.{p}")
-    t = time.time()
-    r = m.search(Ctx(p, "quick", 0), [], [])
-    print(p, "search ->", "None" if r is None else r, f"({time.time()-t:.1f}s)")
-    bad += r is not None
+    for sd in SEEDS:
+        t = time.time()
+        r = m.search(Ctx(p, "quick", sd), [], [])
+        print(p, f"seed {sd} search ->", "None" if r is None else r, f"({time.time()-t:.1f}s)")
+        bad += r is not None
 sys.exit(1 if bad else 0)
